@@ -20,6 +20,10 @@ T["C13"] = ("exact-rational grid-size contract at every simulate() exit + time-t
 T["C20"] = ("exact piecewise / mpmath formula contracts on clamps, Whalley-Wilmott band and helpers",
             "Clamp/leaky clamp (functions and modules as configured, ties, inverted, one-sided, broadcast bounds) are judged element-wise in exact arithmetic; the "
             "Whalley-Wilmott output is judged against band membership computed from an mpmath Black-Scholes oracle; SVI, bilerp, Box-Muller, realized volatility against mpmath formulas.", "4 C20")
+T["C05"] = ("definition contracts (exact rational / 50-digit mpmath) on the risk-measure functions and loss modules",
+            "Every call of entropic_risk_measure, expected_shortfall, value_at_risk, quadratic_cvar (all aliases) and the loss modules' forward made by generated samples "
+            "(ties, constants, heavy tails, N=1, magnitudes 1e-6..1e6, explicit dims, targets) is compared column by column with the mathematical definition; "
+            "three known findings (quadratic-CVaR bracket, its max_iter failure on near-constant float32 samples, dim=None on multi-dimensional input).", "4 C05")
 NA = {}
 
 def main():
